@@ -4,6 +4,7 @@ import (
 	"fmt"
 	"github.com/chain4energy/c4e-chain/x/cfedistributor/types"
 	sdk "github.com/cosmos/cosmos-sdk/types"
+	authtypes "github.com/cosmos/cosmos-sdk/x/auth/types"
 )
 
 // RegisterInvariants register cfedistribution invariants
@@ -39,7 +40,9 @@ func StateSumBalanceCheckInvariant(k Keeper) sdk.Invariant {
 
 		var broken bool
 
-		distributorAccountCoins := k.GetAccountCoinsForModuleAccount(ctx, types.DistributorMainAccount)
+		// read the balance without GetModuleAccount: that call creates the account when it is missing, and whether an
+		// invariant is evaluated depends on node-local settings (genesis assertion, invariant check period)
+		distributorAccountCoins := k.GetAccountCoins(ctx, authtypes.NewModuleAddress(types.DistributorMainAccount))
 		if remainsSum.IsZero() && distributorAccountCoins.IsZero() {
 			ctx.Logger().Debug("Coin state and distributor account is empty possible start of blockchain")
 			broken = false
